@@ -69,6 +69,22 @@ def maskedCopy {P T} (g : Geom P T) (m : List Bool) : Except Err (Geom P T) :=
       let cm := cells.map (cellKept m)
       .ok { g1 with cells := some ((keep cm cells).map (remap m)), cdata := deleteData cm g.cdata }
 
+/-- both masks at once, `copy(mask=m, cell_mask=cm)`: a cell survives when the caller selected it *and* none of its vertices
+    was dropped (repaired; as found a selected cell touching a dropped vertex was kept and rewired to vertex 1) -/
+def andMask (a b : List Bool) : List Bool := List.zipWith (fun x y => x && y) a b
+
+def maskedCopy2 {P T} (g : Geom P T) (m cmIn : List Bool) : Except Err (Geom P T) :=
+  if m.length != g.verts.length then .error .valueError
+  else
+    match g.cells with
+    | none => maskedCopy g m
+    | some cells =>
+      if cmIn.length != cells.length then .error .valueError
+      else
+        let cm := andMask (cells.map (cellKept m)) cmIn
+        .ok { g with verts := keep m g.verts, vdata := deleteData m g.vdata,
+                     cells := some ((keep cm cells).map (remap m)), cdata := deleteData cm g.cdata }
+
 /-- `format_length` for an array of `k` entries against `n` expected: pad with no-data,
     refuse longer arrays. -/
 def formatLength {T} (ndv : T) (n : Nat) (v : List T) : Except Err (List T) :=
